@@ -36,6 +36,7 @@ type opDef struct {
 	Batch     int
 	Prune     bool
 	Refs      []string // PushKind refs / lfs-refs: short names of the refs named in ONE invocation
+	Cfg       []string // push operations: extra `-c key=value` settings of this one invocation (fault-sequence probes)
 }
 
 // resolveRef: short name -> full local ref name (branches first, then tags), "" if it does not exist.
@@ -57,15 +58,17 @@ var faultNames = []string{"put-500", "put-500-once", "put-422", "put-403", "veri
 	"expire-first", "expire-first-neg", "expire-first-at", "expire-always"}
 
 type faultCtl struct {
-	mu      sync.Mutex
+	mu        sync.Mutex
 	name      string
 	putSeen   map[string]int
 	batchSeen int
+	seq       *seqCtl // fault-SEQUENCE probe: every answer is a choice point of the running execution (c03_seq_verif_test.go)
 }
 
 func (f *faultCtl) set(name string) {
 	f.mu.Lock()
 	f.name = name
+	f.seq = nil
 	f.putSeen = map[string]int{}
 	f.batchSeen = 0
 	f.mu.Unlock()
@@ -86,7 +89,11 @@ func newServer(fc *faultCtl) *fakelfs.Server {
 	s.Hook = func(s *fakelfs.Server, w http.ResponseWriter, r *http.Request, rec *fakelfs.Recorded) bool {
 		fc.mu.Lock()
 		f := fc.name
+		sq := fc.seq
 		fc.mu.Unlock()
+		if sq != nil {
+			return sq.serve(s, w, r, rec)
+		}
 		switch rec.Kind {
 		case "batch":
 			if f == "batch-500" {
@@ -110,10 +117,7 @@ func newServer(fc *faultCtl) *fakelfs.Server {
 				apiErr(w, 403, "forbidden")
 				return true
 			}
-			s.Lock()
-			s.Objects[oid] = append([]byte(nil), rec.Body...)
-			s.PutCount[oid]++
-			s.Unlock()
+			storePut(s, rec)
 			w.WriteHeader(200)
 			return true
 		case "verify":
@@ -167,6 +171,15 @@ func newServer(fc *faultCtl) *fakelfs.Server {
 	return s
 }
 
+// storePut stores the body of a storage PUT under the name it was sent to (no hashing: see newServer).
+func storePut(s *fakelfs.Server, rec *fakelfs.Recorded) {
+	oid := rec.Path[strings.LastIndex(rec.Path, "/")+1:]
+	s.Lock()
+	s.Objects[oid] = append([]byte(nil), rec.Body...)
+	s.PutCount[oid]++
+	s.Unlock()
+}
+
 func (w *worker) loadServers(st *wstate, fault string) {
 	w.fault.set(fault)
 	for i, s := range w.srv {
@@ -178,7 +191,7 @@ func (w *worker) loadServers(st *wstate, fault string) {
 		s.PutCount = map[string]int{}
 		s.Verified = map[string]bool{}
 		s.Requests = nil
-		s.WithVerify = fault == "verify-fail" || fault == "verify-ok"
+		s.WithVerify = fault == "verify-fail" || fault == "verify-ok" || w.seqVerify
 		s.Unlock()
 	}
 }
@@ -423,6 +436,9 @@ func (e *envT) apply(w *worker, st *wstate, o opDef) (res gitx.Res, enabled bool
 		return ok0(), true
 	case "gitpush", "lfspush":
 		var args []string
+		for _, kv := range o.Cfg {
+			args = append(args, "-c", kv)
+		}
 		if o.Batch > 0 {
 			args = append(args, "-c", fmt.Sprintf("lfs.transfer.batchsize=%d", o.Batch))
 		}
